@@ -468,6 +468,7 @@ func init() {
 	reg("mix.streams", []string{"C02", "C05", "C06"}, Bias{Streams: 90, Errors: 10, Metadata: 10, MaxMsgs: 200, MaxCalls: 32, AllTopos: true})
 	reg("mix.status", []string{"C03"}, Bias{Streams: 60, Errors: 75, Metadata: 5, MaxMsgs: 4, MaxCalls: 6})
 	reg("mix.metadata", []string{"C04"}, Bias{Streams: 60, Errors: 25, Metadata: 100, MaxMsgs: 4, MaxCalls: 5})
+	reg("mix.early", []string{"C02", "C03", "C06", "C11"}, Bias{Streams: 90, Errors: 30, Metadata: 10, MaxMsgs: 6, MaxCalls: 6, EarlyRet: true})
 	reg("mix.side", []string{"C20"}, Bias{Streams: 55, Errors: 30, Metadata: 10, MaxMsgs: 4, MaxCalls: 6, Intercept: true})
 	reg("mix.all", []string{"C01", "C02", "C03", "C04", "C05", "C06", "C20"}, Bias{Streams: 60, Errors: 25, Metadata: 30, MaxMsgs: 8, MaxCalls: 12, Intercept: true, AllTopos: true})
 }
